@@ -98,3 +98,26 @@ def _grapheme_indices(ctx, args, ck):
         sub = substr(s, a, b)
         out.append(Tup([Int(sub.lo - s.lo, 'usize'), sub]))
     return ListIter(out)
+
+
+# ---------------------------------------------------------------- unicode-normalization: identity on NFKC/NFC-stable text
+import unicodedata
+
+
+@model('UnicodeNormalization::nfkc', 'UnicodeNormalization::nfc', 'UnicodeNormalization::nfd',
+       'UnicodeNormalization::nfkd')
+def _normalize_iter(ctx, args, ck):
+    from models_iter import drain_iter
+    form = ck.name.upper()
+    items = drain_iter(ctx, args[0])
+    for c in items:
+        if isinstance(c.v, int):
+            if unicodedata.normalize(form, chr(c.v)) != chr(c.v):
+                raise Unsupported('normalisation of a non-%s-stable character U+%04X' % (form, c.v))
+        elif not ctx.must(z3.ULT(c.v, 0x80)):
+            raise Unsupported('normalisation of a symbolic non-ASCII character')
+    # stable single characters: a sequence can still compose (base + combining mark) - only for non-ASCII marks
+    for c in items:
+        if isinstance(c.v, int) and unicodedata.combining(chr(c.v)):
+            raise Unsupported('normalisation of combining marks is outside the model')
+    return ListIter(items)
